@@ -143,6 +143,8 @@ struct World {
     pad: usize,
     links_buf: Vec<(*const Node, u8, usize)>,
     in_sweep: bool,
+    // measurement runs (ring): skip the oracles whose cost is linear per destructor
+    fast: bool,
 }
 
 static mut W: Option<World> = None;
@@ -283,7 +285,7 @@ impl Drop for Node {
             // a loose value (try_unwrap) is not alive as an object any more
             w.alive[id as usize] = false;
         }
-        if w.dtor_log.contains(&id) {
+        if !w.fast && w.dtor_log.contains(&id) {
             set_oracle(format!("C02:double-dtor:{}", id));
         }
         w.dtor_log.push(id);
@@ -1221,6 +1223,7 @@ fn reset_world(pad: usize) {
             pad,
             links_buf: Vec::with_capacity(64),
             in_sweep: false,
+            fast: false,
         });
         crate::LIVE_BLOCKS = 0;
     }
@@ -1485,6 +1488,7 @@ fn ring(n: usize, chords: usize) -> String {
     w_.alive = vec![true; n];
     w_.next_id = n as u32;
     w_.shadow = Vec::new(); // no shadow lookups: linear search would dominate
+    w_.fast = true;
     let mk = |i: usize| Rc::new(Node { id: i as u32, script: NO_SCRIPT, slots: UnsafeCell::new(empty_slots()) });
     // node i keeps the only handle to node i+1 in slot 0 (moved in, adopted);
     // hp[i] points at the handle object that refers to node i
